@@ -15,7 +15,7 @@ for d in sorted(os.listdir('/verif/seeded')):
         verdict = rules
     else:
         verdict = '**NOT DETECTED**'
-    rnd = 'round 1' if d[-1] in 'ab' else ('round 2' if d[-1] in 'cd' else ('round 3' if d[-1] in 'ef' else ('round 4' if d[-1] in 'gh' else ('round 5' if d[-1] in 'ij' else ('round 6' if d[-1] in 'kl' else 'round 7')))))
+    rnd = 'round 1' if d[-1] in 'ab' else ('round 2' if d[-1] in 'cd' else ('round 3' if d[-1] in 'ef' else ('round 4' if d[-1] in 'gh' else ('round 5' if d[-1] in 'ij' else ('round 6' if d[-1] in 'kl' else ('round 7' if d[-1] in 'mn' else 'round 8'))))))
     cell = lambda t: ' '.join(str(t).replace('|', '/').split())
     rows.append(f"| {d} | {rnd} | {cell(m['breaks'])} | {cell(m['needs_to_manifest'])} | {verdict} |")
 tbl = "| seed | round | change | needs, to manifest | rules that fire |\n|------|-------|--------|--------------------|-----------------|\n" + "\n".join(rows)
